@@ -251,7 +251,8 @@ def check(ctx):
     while not isinstance(stmt10, ast.stmt):
         stmt10 = pm10[stmt10]
     cond10 = _pc10(rc10.node, stmt10, pm10)
-    conj10 = [norm(x) for x in flatten_boolop(cond10, ast.And)] if cond10 is not None else []
+    from ..util import canon as _canon10
+    conj10 = [_canon10(rc10.node, x) for x in flatten_boolop(cond10, ast.And)] if cond10 is not None else []
     extra10 = [c for c in conj10 if c not in ("is_method(conversion.converter)", "True") and "is_method(" not in c and "isinstance(converter, property)" not in c]
     disj = any(" or " in c for c in conj10)
     ctx.check("is_method(conversion.converter)" in conj10 and not extra10 and not disj, "C04.R10", f"{rc10.qualname}:wrap", None,
@@ -399,6 +400,7 @@ def passthrough_rule(ctx):
 
 
 def mutants(mb):
+    mb.add_text("neg-resolve-conversion-local", "apischema/conversions/conversions.py", "    if is_method(conversion.converter):\n        if conversion.source is None:\n            conversion = replace(conversion, source=method_class(conversion.converter))\n        conversion = replace(conversion, converter=method_wrapper(conversion.converter))\n", "    converter = conversion.converter\n    if is_method(converter):\n        if conversion.source is None:\n            conversion = replace(conversion, source=method_class(converter))\n        conversion = replace(conversion, converter=method_wrapper(converter))\n", negative=True)
     mb.add_text("function-form-not-registered", "apischema/methods.py", "            register(method, owner2, method.__name__)\n", "", "C04.R11", "function-form")
     mb.add_text("function-form-owner-not-inferred", "apischema/methods.py", "                    owner2 = get_origin_or_type2(hints[next(iter(hints))])\n", "                    owner2 = None\n", "C04.R11", "owner")
     mb.add_text("method-converter-wrapped-only-without-source", "apischema/conversions/conversions.py", "        if conversion.source is None:\n            conversion = replace(conversion, source=method_class(conversion.converter))\n        conversion = replace(conversion, converter=method_wrapper(conversion.converter))\n", "        if conversion.source is None:\n            conversion = replace(conversion, source=method_class(conversion.converter))\n            conversion = replace(conversion, converter=method_wrapper(conversion.converter))\n", "C04.R10", "wrap")
